@@ -9,7 +9,7 @@ final state of mutable arguments and module globals (returned by the drivers).
 
 from __future__ import annotations
 
-from pv.corpus.templates import BY_NAME, TEMPLATES
+from pv.corpus.templates import BY_NAME, TEMPLATES, generated
 
 PROPERTY = "C01"
 
@@ -30,7 +30,8 @@ META = {
                      "configs": "as quick + every singleton + every pair of the template's listed variables"},
     },
     "out_of_scope": [
-        "programs outside the template catalogue (pv/corpus/templates.py)", "async functions",
+        "programs outside the template catalogue (pv/corpus/templates.py) and the seeded generated compositions "
+        "(pv/corpus/gen.py: 8 per quick run, 40 per thorough run, chosen by VERIF_SEED)", "async functions",
         "match statements (not among the statement forms the property lists; observed: names bound by match patterns "
         "are mis-classified as globals -> PteraNameError)",
         "bare annotations and globals rebound during the call (excluded by the property itself)",
@@ -209,8 +210,12 @@ def _cfgs(tmpl, tier):
 def cases(tier, seed):
     cs = []
     L = 4 if tier == "thorough" else 3
-    for t in TEMPLATES:
-        for cfg in _cfgs(t, tier):
+    gens = generated(seed, 40 if tier == "thorough" else 8)
+    for t in TEMPLATES + gens:
+        cfgs = _cfgs(t, tier)
+        if t.get("generated") and tier != "thorough":
+            cfgs = [["tooled"], ["probe", ["$x"]], ["total", t["vars"][0]]] + [["probe", [v]] for v in t["vars"][:2]]
+        for cfg in cfgs:
             cid = f"{t['name']}:{cfg[0]}" + (":" + "+".join(cfg[1]) if len(cfg) > 1 and isinstance(cfg[1], list)
                                               else (":" + cfg[1] if len(cfg) > 1 else ""))
             cs.append({"id": cid, "params": {"template": t["name"], "cfg": cfg, "L": L},
